@@ -50,6 +50,14 @@ Section Frag.
   Qed.
 End Frag.
 
+Lemma sch_ty_not_one t : is_one (sch_ty t) = false.
+Proof.
+  apply is_one_none. destruct t; try reflexivity; cbn [sch_ty];
+    repeat match goal with
+           | |- context [match ?x with _ => _ end] => destruct x
+           end; reflexivity.
+Qed.
+
 Lemma keys_sorted_unique l : keys_sorted l = true -> Sanitize.unique l = true.
 Proof. intro H. apply unique_true_iff. apply keys_sorted_NoDup. exact H. Qed.
 
@@ -110,8 +118,13 @@ Section Def.
       assert (Hgoal : keys_sorted (map fst (sch_fields rule fs))
                       && forallb (fun r => has_key r (sch_fields rule fs)) (req_fields rule fs)
                       && Sanitize.unique (field_idents cls (sch_fields rule fs))
+                      && forallb (fun kv => mem_ustr (fst kv) (req_fields rule fs) || negb (is_one (snd kv))) (sch_fields rule fs)
                       && forallb (fun kv => frag cls names (snd kv)) (sch_fields rule fs) = true).
-      { rewrite (fields_frag rule fs Hf), (req_has_key rule fs), (field_idents_fields rule fs Hf).
+      { assert (Hno : forallb (fun kv => mem_ustr (fst kv) (req_fields rule fs) || negb (is_one (snd kv))) (sch_fields rule fs) = true).
+        { apply forallb_forall. intros kv Hkv. unfold sch_fields in Hkv. apply in_map_iff in Hkv.
+          destruct Hkv as (f & <- & _). cbn [snd]. rewrite sch_ty_not_one. apply orb_true_r. }
+        rewrite Hno.
+        rewrite (fields_frag rule fs Hf), (req_has_key rule fs), (field_idents_fields rule fs Hf).
         rewrite (keys_sorted_unique _ Hsn).
         rewrite sch_fields_keys, Hsw. reflexivity. }
       unfold sch_struct. subst fs. destruct deny; exact Hgoal.
